@@ -718,6 +718,7 @@ class Channel:
     TimeoutError = TimeoutError
     _INTERNALWAKEUP = 1000
     _executing = False
+    _deleted = False
 
     def __init__(self, gateway: BaseGateway, id: int) -> None:
         """:private:"""
@@ -780,11 +781,13 @@ class Channel:
             return  # type: ignore[unreachable]
 
         self._trace("channel.__del__")
-        # no multithreading issues here, because we have the last ref to 'self'
+        # we have the last ref to 'self', but until this finalizer is through
+        # the factory's weak dictionary can still hand the object to the
+        # receiver thread: it reports errors that arrive from now on itself
+        self._deleted = True
         if self._closed:
             # state transition "closed" --> "deleted"
-            for error in self._remoteerrors:
-                error.warn()
+            self._warn_remoteerrors()
         elif self._receiveclosed.is_set():
             # state transition "sendonly" --> "deleted"
             # the remote channel is already in "deleted" state, but its
@@ -805,6 +808,16 @@ class Channel:
                     msgcode = Message.CHANNEL_CLOSE
                 with suppress(OSError, ValueError):  # ignore problems with sending
                     self.gateway._send(msgcode, self.id)
+
+    def _warn_remoteerrors(self) -> None:
+        # nobody can receive them anymore (each error is popped, so it is
+        # reported once even if finalizer and receiver thread both get here)
+        while True:
+            try:
+                error = self._remoteerrors.pop(0)
+            except IndexError:
+                return
+            error.warn()
 
     def _getremoteerror(self):
         try:
@@ -1055,6 +1068,9 @@ class ChannelFactory:
                 queue.put(ENDMARKER)
             self._no_longer_opened(id)
             channel._receiveclosed.set()
+            if channel._deleted:
+                # the channel object is being finalized right now
+                channel._warn_remoteerrors()
 
     def _local_receive(self, id: int, data) -> None:
         # executes in receiver thread
